@@ -212,7 +212,7 @@ def _configs(tier, salts):
                     if tier == "quick" and maxfun == 25 and mode in ("boxball_diag", "doc_ballbox", "diag_nopoised", "hard_mu0"):
                         depth = 0
                     out.append((cfg, {"depth": depth, "letters": LETTERS}))
-        if salt == 0 or tier == "thorough":
+        if salt == 0 or (tier == "thorough" and salt == 1):
             for name, cfg in cfgs.broad_cfgs(salt=salt, budgets=(3, 9, 30, 70), reg_budgets=(3, 8), overlays=("avg",)):
                 depth = 1 if (cfg.get("memo", True) and cfg["maxfun"] == 9 and "reg" not in cfg["broad_flags"]) else 0
                 out.append((cfg, {"depth": depth, "letters": ["nan", "nan1", "inf"]}))
